@@ -6,7 +6,9 @@ idx = open(os.path.join(ROOT, "INDEX.md")).read()
 idx = re.sub(r"<!-- waves23 -->.*<!-- /waves23 -->\n", "", idx, flags=re.S)
 out = ["<!-- waves23 -->"]
 for wave, title, logs in (("agent2-", "Second wave", "eval2-first-pass.log, eval2-final.log"), ("agent3-", "Third wave", "eval3-first-pass.log, eval3-final.log"),
-                          ("agent4-", "Fourth wave", "eval4-first-pass.log, eval4-final.log")):
+                          ("agent4-", "Fourth wave", "eval4-first-pass.log, eval4-final.log"),
+                          ("agent5-", "Fifth wave", "eval5-first-pass.log, eval5-final.log"),
+                          ("agent6-", "Sixth wave", "eval6-first-pass.log, eval6-final.log")):
     rows = []
     fp = 0
     for d in sorted(os.listdir(ROOT)):
@@ -24,7 +26,10 @@ for wave, title, logs in (("agent2-", "Second wave", "eval2-first-pass.log, eval
         "  The first-pass log of this wave was recorded while strengthening was already under way: rows marked 'missed' were found missed "
         "(by running the then-current check with tools/mut.sh, or by reading the patch against the scenario list) before the addition."
         if wave == "agent2-" else ("  (C17's first-pass run was killed by accident and repeated by hand: missed.)" if wave == "agent3-" else
-        "  (agent4-C03 is the exception: it was observable only through a defect of the unchanged code that the new scenario exposed and that is now fixed.)")))
+        ("  (agent4-C03 is the exception: it was observable only through a defect of the unchanged code that the new scenario exposed and that is now fixed.)"
+         if wave == "agent4-" else
+         "  Waves five and six were produced and evaluated in one session; a change counts as 'reported' on the first pass only if the check as it stood "
+         "before the agent's summary was read reports it."))))
     out.append("| name | property | file | needs, to manifest | reported by |\n|---|---|---|---|---|")
     out.extend(rows)
     out.append("")
